@@ -207,8 +207,37 @@ def exhaustive(depth, ty, rng=None, sample=None):
             yield case(ty, body, list(range(len(body))))
 
 
+# ---------------------------------------------------------------- float oracle (op 2)
+# f64 points, encoded exactly as (m e) = m * 2^e: negative, zero, positive, small integers, fractions
+FLOAT_ALPHABET = [[-3, 0], [-2, 0], [-3, -1], [-1, 0], [-1, -1], [0, 0], [1, -2], [1, -1], [1, 0], [3, -1], [2, 0], [3, 0]]
+# (y, constant record, plain number) combinations used with every x of the alphabet
+FLOAT_COMBOS = [([2, 0], [3, 0], [2, 0]), ([-2, 0], [1, -1], [3, 0]), ([0, 0], [-1, 0], [-1, 0]),
+                ([1, -1], [2, 0], [1, -1]), ([3, 0], [-3, 0], [0, 0]), ([-3, -1], [3, -1], [-2, 0])]
+
+
+def float_bodies(tier, rng):
+    """every single instruction (all operand kinds) at every x of the boundary alphabet, and random
+    pairs of instructions; no empty sums (a leafless constant has no tape entry to compare)"""
+    quick = tier == "quick"
+    for x in FLOAT_ALPHABET:
+        for y, c, k in FLOAT_COMBOS:
+            pre = [[0, x], [0, y], [1, c]]
+            for ins in all_ins(3, None, k):
+                if ins != [6, []]:
+                    yield pre + [ins]
+    for _ in range(4000 if quick else 60000):
+        body = [[0, rng.choice(FLOAT_ALPHABET)], [0, rng.choice(FLOAT_ALPHABET)], [1, rng.choice(FLOAT_ALPHABET)]]
+        for _ in range(2):
+            choices = [i for i in all_ins(len(body), None, rng.choice(FLOAT_ALPHABET)) if i != [6, []]]
+            body.append(rng.choice(choices))
+        yield body
+
+
 def gen(tier, rng):
     quick = tier == "quick"
+    # --- float oracle: f64 through Record and Trace, flags computed on the Rust side
+    for body in float_bodies(tier, rng):
+        yield sx([4, 2, body, list(range(2, len(body)))])
     # --- exhaustive: every single instruction over {x0, x1, constant record} with one plain number,
     #     both element types; every pair of instructions (Fp; thorough: Rat too)
     for ty in (0, 1):
@@ -251,7 +280,10 @@ def gen(tier, rng):
 
 
 def nontrivial(case_line, model_out):
-    """some observed output is not a constant and has a non-zero derivative for some variable"""
+    """some observed output is not a constant and has a non-zero derivative for some variable (float
+    oracle cases: every case runs an operator on f64 in all forms and both modes)"""
+    if case_line.startswith("(4 2") or case_line.startswith("(5 2"):
+        return True
     try:
         res = parse_sx(model_out)
         for o in res[0]:
@@ -275,7 +307,10 @@ def distribution(lines):
     kinds, types, sizes = {}, {}, {}
     for l in lines:
         t = parse_sx(l)
-        ty, body = (t[2], t[3]) if t[0] == 4 else (t[2], t[4])
+        if t[1] == 2:
+            ty, body = 2, (t[2] if t[0] == 4 else t[3])
+        else:
+            ty, body = (t[2], t[3]) if t[0] == 4 else (t[2], t[4])
         types["ty%d" % ty] = types.get("ty%d" % ty, 0) + 1
         n = len(body)
         b = "1-4" if n <= 4 else "5-8" if n <= 8 else "9-20" if n <= 20 else "21-40"
